@@ -71,7 +71,7 @@ pub trait Decoder {
             final(src).buf.reserve_bound == old(src).buf.reserve_bound,
             forall|p: Seq<u8>| final(self).dec(p) == old(self).dec(p);
     // A-codec-02: Decoder::buffer_settings has no side effect
-    fn buffer_settings(&self) -> BufferSettings;
+    fn buffer_settings(&self) -> (r: BufferSettings) ensures sane(r);
 }
 '''
 
@@ -124,7 +124,7 @@ def build():
     u.prelude('base.rs', 'wire.rs', 'bytes.rs')
     u.item('tonic/src/status.rs', 'enum', 'Code', derives='Clone, Copy, PartialEq, Eq')
     u.item('tonic/src/codec/compression.rs', 'enum', 'CompressionEncoding', derives='Clone, Copy, PartialEq, Eq')
-    u.prelude('codec.rs')
+    u.prelude('codec_specs.rs', 'codec.rs')
     u.const_guard('tonic/src/codec/mod.rs', 'HEADER_SIZE', 'const HEADER_SIZE: usize = std::mem::size_of::<u8>() + std::mem::size_of::<u32>();', 'pub const HEADER_SIZE: usize = 5;')
     u.item('tonic/src/codec/mod.rs', 'const', 'DEFAULT_MAX_RECV_MESSAGE_SIZE')
     u.item('tonic/src/codec/buffer.rs', 'struct', 'DecodeBuf')
@@ -142,7 +142,7 @@ def build():
 
     unp = 'old(self).unparsed()'
     u.fn(D, 'decode_chunk', within='impl StreamingInner', header='impl StreamingInner {', close=False,
-         requires=['old(self).wf()', '!(old(self).state is Error)'],
+         requires=['old(self).wf()', '!(old(self).state is Error)', 'sane(buffer_settings)'],
          body_start='        broadcast use lemma_hdr_prefix, lemma_hdr_rebuild;',
          hints=[('before', 'let decode_buf = if let Some(encoding) = compression {',
                  'proof { lemma_hdr_prefix(flag_of(compression), len as int, self.buf@); lemma_hdr_subrange(flag_of(compression), len as int, self.buf@, len as int); }')],
